@@ -7,14 +7,17 @@ pub open spec fn dec_i32(le: bool, s: Seq<u8>) -> i32 { as_signed(ord_nat(le, s)
 pub open spec fn dec_f32(le: bool, s: Seq<u8>) -> f32 { f32_of_bits(ord_nat(le, s)) }
 
 pub open spec fn rev(s: Seq<u8>) -> Seq<u8> { Seq::new(s.len(), |i: int| s[s.len() - 1 - i]) }
+#[verifier::opaque]
 pub open spec fn enc_u16(le: bool, x: u16) -> Seq<u8> {
     let l = seq![(x & 0xff) as u8, ((x >> 8) & 0xff) as u8];
     if le { l } else { rev(l) }
 }
+#[verifier::opaque]
 pub open spec fn enc_u32(le: bool, x: u32) -> Seq<u8> {
     let l = seq![(x & 0xff) as u8, ((x >> 8) & 0xff) as u8, ((x >> 16) & 0xff) as u8, ((x >> 24) & 0xff) as u8];
     if le { l } else { rev(l) }
 }
+#[verifier::opaque]
 pub open spec fn enc_u64(le: bool, x: u64) -> Seq<u8> {
     let l = seq![(x & 0xff) as u8, ((x >> 8) & 0xff) as u8, ((x >> 16) & 0xff) as u8, ((x >> 24) & 0xff) as u8,
                  ((x >> 32) & 0xff) as u8, ((x >> 40) & 0xff) as u8, ((x >> 48) & 0xff) as u8, ((x >> 56) & 0xff) as u8];
@@ -59,6 +62,7 @@ pub proof fn lemma_le_nat_unfold(s: Seq<u8>)
 pub broadcast proof fn lemma_dec_enc_u16(le: bool, x: u16)
     ensures #[trigger] ord_nat(le, enc_u16(le, x)) == x as nat, dec_u16(le, enc_u16(le, x)) == x, enc_u16(le, x).len() == 2
 {
+    reveal(enc_u16);
     let s = enc_u16(le, x);
     lemma_le_nat_unfold(s);
     assert(x == (x & 0xff) + 256 * ((x >> 8) & 0xff)) by (bit_vector);
@@ -67,14 +71,66 @@ pub broadcast proof fn lemma_dec_enc_u16(le: bool, x: u16)
 pub broadcast proof fn lemma_dec_enc_u32(le: bool, x: u32)
     ensures #[trigger] ord_nat(le, enc_u32(le, x)) == x as nat, dec_u32(le, enc_u32(le, x)) == x, enc_u32(le, x).len() == 4
 {
+    reveal(enc_u32);
     let s = enc_u32(le, x);
     lemma_le_nat_unfold(s);
     assert(x == (x & 0xff) + 256 * ((x >> 8) & 0xff) + 65536 * ((x >> 16) & 0xff) + 16777216 * ((x >> 24) & 0xff)) by (bit_vector);
     assert((x & 0xff) < 256 && ((x >> 8) & 0xff) < 256 && ((x >> 16) & 0xff) < 256 && ((x >> 24) & 0xff) < 256) by (bit_vector);
 }
+pub proof fn lemma_nat8(le: bool, s: Seq<u8>)
+    requires s.len() == 8
+    ensures
+        le_nat(s) == s[0] as nat + 256 * (s[1] as nat) + 65536 * (s[2] as nat) + 16777216 * (s[3] as nat)
+            + 4294967296 * (s[4] as nat) + 1099511627776 * (s[5] as nat) + 281474976710656 * (s[6] as nat) + 72057594037927936 * (s[7] as nat),
+        be_nat(s) == s[7] as nat + 256 * (s[6] as nat) + 65536 * (s[5] as nat) + 16777216 * (s[4] as nat)
+            + 4294967296 * (s[3] as nat) + 1099511627776 * (s[2] as nat) + 281474976710656 * (s[1] as nat) + 72057594037927936 * (s[0] as nat),
+{
+    let lo = s.subrange(0, 4);
+    let hi = s.subrange(4, 8);
+    lemma_le_nat_unfold(lo);
+    lemma_le_nat_unfold(hi);
+    // le_nat(s) = le_nat(lo) + 2^32 * le_nat(hi): unfold four steps
+    reveal_with_fuel(le_nat, 10);
+    reveal_with_fuel(be_nat, 10);
+    let t1 = s.subrange(1, 8); let t2 = t1.subrange(1, 7); let t3 = t2.subrange(1, 6); let t4 = t3.subrange(1, 5);
+    let t5 = t4.subrange(1, 4); let t6 = t5.subrange(1, 3); let t7 = t6.subrange(1, 2);
+    assert(t7.subrange(1, 1).len() == 0);
+    assert(le_nat(t7) == t7[0] as nat);
+    assert(le_nat(t6) == t6[0] as nat + 256 * le_nat(t7));
+    assert(le_nat(t5) == t5[0] as nat + 256 * le_nat(t6));
+    assert(le_nat(t4) == t4[0] as nat + 256 * le_nat(t5));
+    assert(le_nat(t3) == t3[0] as nat + 256 * le_nat(t4));
+    assert(le_nat(t2) == t2[0] as nat + 256 * le_nat(t3));
+    assert(le_nat(t1) == t1[0] as nat + 256 * le_nat(t2));
+    assert(le_nat(s) == s[0] as nat + 256 * le_nat(t1));
+    let u1 = s.subrange(0, 7); let u2 = u1.subrange(0, 6); let u3 = u2.subrange(0, 5); let u4 = u3.subrange(0, 4);
+    let u5 = u4.subrange(0, 3); let u6 = u5.subrange(0, 2); let u7 = u6.subrange(0, 1);
+    assert(u7.subrange(0, 0).len() == 0);
+    assert(be_nat(u7) == u7[0] as nat);
+    assert(be_nat(u6) == be_nat(u7) * 256 + u6[1] as nat);
+    assert(be_nat(u5) == be_nat(u6) * 256 + u5[2] as nat);
+    assert(be_nat(u4) == be_nat(u5) * 256 + u4[3] as nat);
+    assert(be_nat(u3) == be_nat(u4) * 256 + u3[4] as nat);
+    assert(be_nat(u2) == be_nat(u3) * 256 + u2[5] as nat);
+    assert(be_nat(u1) == be_nat(u2) * 256 + u1[6] as nat);
+    assert(be_nat(s) == be_nat(u1) * 256 + s[7] as nat);
+}
+pub broadcast proof fn lemma_dec_enc_u64(le: bool, x: u64)
+    ensures #[trigger] ord_nat(le, enc_u64(le, x)) == x as nat, dec_u64(le, enc_u64(le, x)) == x, enc_u64(le, x).len() == 8
+{
+    reveal(enc_u64);
+    let s = enc_u64(le, x);
+    lemma_nat8(le, s);
+    assert(x == (x & 0xff) + 256 * ((x >> 8) & 0xff) + 65536 * ((x >> 16) & 0xff) + 16777216 * ((x >> 24) & 0xff)
+        + 4294967296 * ((x >> 32) & 0xff) + 1099511627776 * ((x >> 40) & 0xff) + 281474976710656 * ((x >> 48) & 0xff)
+        + 72057594037927936 * ((x >> 56) & 0xff)) by (bit_vector);
+    assert((x & 0xff) < 256 && ((x >> 8) & 0xff) < 256 && ((x >> 16) & 0xff) < 256 && ((x >> 24) & 0xff) < 256
+        && ((x >> 32) & 0xff) < 256 && ((x >> 40) & 0xff) < 256 && ((x >> 48) & 0xff) < 256 && ((x >> 56) & 0xff) < 256) by (bit_vector);
+}
 pub broadcast proof fn lemma_dec_enc_i32(le: bool, x: i32)
     ensures #[trigger] as_signed(ord_nat(le, enc_i32(le, x)), 32) == x as int, dec_i32(le, enc_i32(le, x)) == x, enc_i32(le, x).len() == 4
 {
+    reveal(enc_u32);
     let y = i32_bits(x);
     lemma_dec_enc_u32(le, y);
     let n = ord_nat(le, enc_u32(le, y));
@@ -88,6 +144,7 @@ pub broadcast proof fn lemma_dec_enc_i32(le: bool, x: i32)
 pub broadcast proof fn lemma_dec_enc_f32(le: bool, d: f32)
     ensures #[trigger] f32_of_bits(ord_nat(le, enc_f32(le, d))) == d, dec_f32(le, enc_f32(le, d)) == d, enc_f32(le, d).len() == 4
 {
+    reveal(enc_u32);
     lemma_dec_enc_u32(le, bits_of_f32(d));
     axiom_f32_bits(d);
     let n = ord_nat(le, enc_u32(le, bits_of_f32(d)));
@@ -96,9 +153,9 @@ pub broadcast proof fn lemma_dec_enc_f32(le: bool, d: f32)
     assert((y & 0xff) < 256 && ((y >> 8) & 0xff) < 256 && ((y >> 16) & 0xff) < 256 && ((y >> 24) & 0xff) < 256) by (bit_vector);
     assert(n == y as nat);
 }
-pub broadcast proof fn lemma_enc_len_u16(le: bool, x: u16) ensures #[trigger] enc_u16(le, x).len() == 2 {}
-pub broadcast proof fn lemma_enc_len_u32(le: bool, x: u32) ensures #[trigger] enc_u32(le, x).len() == 4 {}
-pub broadcast proof fn lemma_enc_len_u64(le: bool, x: u64) ensures #[trigger] enc_u64(le, x).len() == 8 {}
-pub broadcast proof fn lemma_enc_len_i32(le: bool, x: i32) ensures #[trigger] enc_i32(le, x).len() == 4 {}
-pub broadcast proof fn lemma_enc_len_f32(le: bool, x: f32) ensures #[trigger] enc_f32(le, x).len() == 4 {}
-pub broadcast group group_wire { lemma_enc_len_u16, lemma_enc_len_u32, lemma_enc_len_u64, lemma_enc_len_i32, lemma_enc_len_f32, lemma_dec_enc_u16, lemma_dec_enc_u32, lemma_dec_enc_i32, lemma_dec_enc_f32 }
+pub broadcast proof fn lemma_enc_len_u16(le: bool, x: u16) ensures #[trigger] enc_u16(le, x).len() == 2 { reveal(enc_u16); }
+pub broadcast proof fn lemma_enc_len_u32(le: bool, x: u32) ensures #[trigger] enc_u32(le, x).len() == 4 { reveal(enc_u32); }
+pub broadcast proof fn lemma_enc_len_u64(le: bool, x: u64) ensures #[trigger] enc_u64(le, x).len() == 8 { reveal(enc_u64); }
+pub broadcast proof fn lemma_enc_len_i32(le: bool, x: i32) ensures #[trigger] enc_i32(le, x).len() == 4 { reveal(enc_u32); }
+pub broadcast proof fn lemma_enc_len_f32(le: bool, x: f32) ensures #[trigger] enc_f32(le, x).len() == 4 { reveal(enc_u32); }
+pub broadcast group group_wire { lemma_dec_enc_u64, lemma_enc_len_u16, lemma_enc_len_u32, lemma_enc_len_u64, lemma_enc_len_i32, lemma_enc_len_f32, lemma_dec_enc_u16, lemma_dec_enc_u32, lemma_dec_enc_i32, lemma_dec_enc_f32 }
